@@ -99,7 +99,7 @@ cdef class cyDiscreteQuadraticModel:
         cdef bias_type bias
         cdef LinearTerm term
         for v, case_v, bias in terms:
-            if case_v >= self.num_cases(v):  # also checks variable
+            if v < 0 or case_v < 0 or case_v >= self.num_cases(v):  # also checks variable
                 raise ValueError("case out of range")
 
             term.variable = v
@@ -255,7 +255,7 @@ cdef class cyDiscreteQuadraticModel:
             for u in range(num_variables):
                 case_u = samples[si, u]
 
-                if case_u >= self.num_cases(u):
+                if case_u < 0 or case_u >= self.num_cases(u):
                     raise ValueError("invalid case")
 
                 cu = self.case_starts_[u] + case_u
